@@ -232,9 +232,22 @@ Fixpoint sorted_desc (l:list N) : bool :=
   | _ => true
   end.
 
+(* windows(2).all(|w| w[0].data().len() >= w[1].data().len()): Data::len is evaluated pair by pair, stops at the first
+   pair out of order; its subtraction can underflow (Panic) *)
+Fixpoint sorted_lens (l:list dsample) : res bool :=
+  match l with
+  | a :: ((b :: _) as t) =>
+      do la <- data_len_lines (ds_data a);
+      do lb <- data_len_lines (ds_data b);
+      if (lb <=? la)%N then sorted_lens t else Ok false
+  | _ => Ok true
+  end.
 (* ByteSeries::read_n (after the fix: n = 0 returns nothing) *)
 Definition read_n (s:series) (n:N) (lo hi:bound) : M (list line) :=
-  if negb (sorted_desc (map (fun ds => d_len (ds_data ds)) (s_down s))) then mpanic else
+  (* assert!(windows(2).all(|w| w[0].data().len() >= w[1].data().len())) - line counts after the fix; Data::len can
+     itself underflow (Panic) *)
+  match sorted_lens (s_down s) with
+  | Ok true =>
   if (n =? 0)%N then ret [] else
   let* d := lift (pick_level (s_data s) (s_down s) n lo hi) in
   let* ps := seek_pos d lo hi in
@@ -244,6 +257,8 @@ Definition read_n (s:series) (n:N) (lo hi:bound) : M (list line) :=
       let* lines := lift (pos_lines ps (d_p d)) in
       let bucket := N.max 1 (lines / n) in
       fwim_read_resampling (d_file d) (d_p d) (s_cb s) bucket (p_start ps) (p_end ps) (p_full ps)
+  end
+  | _ => mpanic
   end.
 
 (* ByteSeries::last_line *)
